@@ -1031,3 +1031,124 @@ def chk_valid_edge(ctx, m, cfg):
 
 INDEXOPS["getters"] = (chk_getters, ["C01"])
 INDEXOPS["valid-edge"] = (chk_valid_edge, ["C10"])
+
+
+# ====================================================================== closure of validity under the index-producing operations (C01, 2nd sentence)
+def _valid_formula(x, res, bcvalid, pent):
+    """formula 'x satisfies the documented cell validity' for a value x with known resolution `res`, the input's own base-cell field and the
+    case flags (base cell < 122, base cell is a pentagon)"""
+    if not bcvalid:
+        return F_const(False)
+    if isinstance(x, int):
+        x = lanes.const_lv(x)
+    if not isinstance(x, LV) or x.off != 0 or not _same_field_as_input(x, BC_OFF, BC_W):
+        raise Shape("result does not carry the input's base-cell field")
+    A = lambda lv: lanes.F_atom(lanes.Atom("nz", lv))
+    top = x.masked(0xFF << 56)
+    top = LV(64, 0, [tuple(v ^ k for v in top.tab[j]) for j, k in enumerate(lanes.lanes_of(0x08 << 56))]).masked(0xFF << 56)
+    f_ = F_not(A(top))
+    rl = LV(64, 0, [tuple(v ^ k for v in x.masked(0xF << RES_OFF).tab[j]) for j, k in enumerate(lanes.lanes_of(res << RES_OFF))]).masked(0xF << RES_OFF)
+    f_ = F_and(f_, F_not(A(rl)))
+    has7 = LV(64, 0, [tuple((1 if (15 - res <= j <= 14 and v == 7) else 0) for v in x.tab[j]) for j in range(NL)], x.chain)
+    not7 = LV(64, 0, [tuple((1 if (j <= 14 - res and v != 7) else 0) for v in x.tab[j]) for j in range(NL)], x.chain)
+    f_ = F_and(f_, F_and(F_not(A(has7)), F_not(A(not7))))
+    if pent:
+        f_ = F_and(f_, F_not(lanes.F_atom(lanes.Atom("top", x.masked((1 << 45) - 1), (lambda p: p is not None and p % 3 == 0)))))
+    return f_
+
+
+class SpecInputValid:
+    """tracks whether the INPUT satisfies the documented validity (for a fixed resolution and base-cell class); the named formulas
+    ('the result is not valid') must be false whenever it does, and are unconstrained otherwise"""
+    def __init__(self, res, bcvalid, pent, names, top=0x08, topmask=0xFF):
+        self.res, self.bcvalid, self.pent, self.names = res, bcvalid, pent, names
+        self.ml, self.vl = lanes.lanes_of(topmask << 56), lanes.lanes_of(top << 56)
+    def init(self): return (True, 0)
+    def step(self, j, x, s):
+        ok, first = s
+        if j <= 14:
+            d = 15 - j
+            if d <= self.res:
+                ok = ok and x != 7
+                if x != 0:
+                    first = x
+            else:
+                ok = ok and x == 7
+        ok = ok and (x & self.ml[j]) == self.vl[j]
+        return (ok, first)
+    def final(self, s):
+        ok, first = s
+        valid = ok and self.bcvalid and not (self.pent and first == 1)
+        return {n: (False if valid else None) for n in self.names}
+
+
+def chk_closure(ctx, m, cfg):
+    """valid input cell (and arguments in the documented domain)  =>  the index that is returned / stored is a valid cell of the requested resolution"""
+    insts = [("cellToParent", "h", "parentRes", "out", lambda res: range(0, res + 1)),
+             ("cellToCenterChild", "h", "childRes", "child", lambda res: range(res, 16))]
+    for fname, hn, rn, on, dom in insts:
+        f = m.fn(fname)
+        hk, rk, ok_ = f.arg_index(hn), f.arg_index(rn), f.arg_index(on)
+        if None in (hk, rk, ok_):
+            raise AnalysisBroken("%s: parameters not found" % fname)
+        n = states = 0
+        bad = None
+        casetxt = ""
+        for res, allowed in _res_cases():
+            for r2 in dom(res):
+                for pent in (False, True):
+                    ev = lanes.Evaluator(m, allowed)
+                    args = [None] * len(f.args)
+                    args[hk], args[rk], args[ok_] = LV.input(), r2, lanes.argptr(ok_)
+                    paths = ev.run(fname, args)
+                    g = F_const(False)
+                    for p in paths:
+                        st_ = p.stored(ok_)
+                        if not isinstance(p.ret, int):
+                            raise Shape("index-dependent code")
+                        if p.ret != 0 or st_ is None:
+                            g = F_or(g, p.cond)          # a valid input in the documented domain must succeed and store
+                        else:
+                            g = F_or(g, F_and(p.cond, F_not(_valid_formula(st_, r2, True, pent))))
+                    nm = "the stored index is not a valid cell of resolution %d" % r2
+                    st, bad = lanes.decide(allowed, {nm: g}, SpecInputValid(res, True, pent, [nm]))
+                    states += st; n += 1
+                    if bad:
+                        casetxt = ", %s=%d [%s base cell]" % (rn, r2, "pentagon" if pent else "hexagon")
+                        break
+                if bad:
+                    break
+            if bad:
+                break
+        _report(ctx, cfg, fname, "closure", f, n, states, bad, "for every VALID cell h and every resolution in the documented domain the stored index is again a valid cell of that resolution", casetxt)
+    # edge origin: a valid directed edge has a valid origin cell
+    fname = "getDirectedEdgeOrigin"
+    f = m.fn(fname)
+    ek, ok_ = f.arg_index("edge"), f.arg_index("out")
+    n = states = 0
+    bad = None
+    for res, allowed in _res_cases():
+        allowed = assume_field(allowed, MODE_OFF, MODE_W, 2)
+        for pent in (False, True):
+            ev = lanes.Evaluator(m, allowed)
+            args = [None] * len(f.args)
+            args[ek], args[ok_] = LV.input(), lanes.argptr(ok_)
+            g = F_const(False)
+            for p in ev.run(fname, args):
+                st_ = p.stored(ok_)
+                if p.ret != 0 or st_ is None:
+                    g = F_or(g, p.cond)
+                else:
+                    g = F_or(g, F_and(p.cond, F_not(_valid_formula(st_, res, True, pent))))
+            nm = "the origin of an edge over a valid cell is not a valid cell"
+            # input: mode 2, any direction, digits/base cell of a valid cell  (top bits 0_0010_ddd : mask out the direction bits)
+            st, bad = lanes.decide(allowed, {nm: g}, SpecInputValid(res, True, pent, [nm], top=0x10, topmask=0xF8))
+            states += st; n += 1
+            if bad:
+                break
+        if bad:
+            break
+    _report(ctx, cfg, fname, "closure", f, n, states, bad, "for every edge index whose cell part is valid the stored origin is a valid cell")
+
+
+INDEXOPS["closure"] = (chk_closure, ["C01", "C04", "C10"])
